@@ -141,7 +141,13 @@ def message_shape(msg, root):
 
 
 def observe_validate(real, v_real):
-    """the real validate() on one value: everything Trace_Val needs"""
+    """the real validate() on one value: everything Trace_Val needs ({"timeout": True} when a
+    regular expression made the library's re.search backtrack beyond the alarm)"""
+    from .common import timed
+    return timed(lambda: _observe_validate(real, v_real), {"timeout": True}, seconds=8.0)
+
+
+def _observe_validate(real, v_real):
     import d42
     import th
     from d42.validation import Formatter, format_result
